@@ -98,3 +98,14 @@ PROPS = {
                 witness='mapper', rests_on=['C19', 'C03'], extras=['anymod_bounded']),
     'C07': dict(units=['mapper'], level='proof', trusted_base=TB_MAPPER, assumptions=AS_MAPPER, witness='mapper', rests_on=['C19', 'C03']),
 }
+
+
+# Every mapper property is proved from the one state invariant Mapper::inv (wf: C19; J1-J6: C01 C02; support test / origin of mappings in effect: C03):
+# a failed obligation carrying one of these tags weakens every other mapper proof. Such a failure counts against another property only together
+# with a concrete failing input for that property (check: rests_on), never on its own.
+_INV_TAGS = ['C19', 'C01', 'C02', 'C03']
+for _p in ('C01', 'C02', 'C03', 'C04', 'C05', 'C06', 'C07', 'C08', 'C09', 'C19', 'C14'):
+    _r = list(PROPS[_p].get('rests_on') or [])
+    for _t in _INV_TAGS:
+        if _t != _p and _t not in _r: _r.append(_t)
+    PROPS[_p]['rests_on'] = _r
